@@ -57,6 +57,12 @@ func (c *Ctx) scanObligations(prop string) ([]*Obligation, map[string]interface{
 		out = append(out, ob)
 		info["callers "+d.Callee] = cinfo
 	}
+	for _, d := range c.cf.FieldsClosed {
+		if d.Prop != prop {
+			continue
+		}
+		out = append(out, c.scanFieldsClosed(d))
+	}
 	for _, d := range c.cf.GlobalStates {
 		if d.Prop != prop {
 			continue
@@ -1228,4 +1234,48 @@ func (c *Ctx) scanUntrackedErrors(pf PropFile) []*Obligation {
 		ob.Model = "an error of a propagating call can leave through a function without an error result: " + strings.Join(bad, "; ")
 	}
 	return []*Obligation{ob}
+}
+
+// scanFieldsClosed: the state of a type is enumerated.
+// Directive:  //@ fieldsclosed Cxx Type | f1, f2, ...
+// The struct has exactly the listed fields. A field that is not on the list is state nobody
+// has classified (is it restored when an evaluation fails? reset between texts? shared by
+// duplicates?): the obligation fails until the list, and with it the contracts, are revisited.
+func (c *Ctx) scanFieldsClosed(d FieldsClosedDirective) *Obligation {
+	ob := &Obligation{Name: "fields.closed[" + d.Type + "]", Kind: "fields.closed", Fn: d.Type, Props: []string{d.Prop}, Backend: "ssa-scan", Status: "ok"}
+	obj := c.tpkg.Scope().Lookup(d.Type)
+	if obj == nil {
+		ob.Status = "failed"
+		ob.Model = "no type " + d.Type
+		return ob
+	}
+	st, ok := obj.Type().Underlying().(*types.Struct)
+	if !ok {
+		ob.Status = "failed"
+		ob.Model = d.Type + " is not a struct"
+		return ob
+	}
+	listed := map[string]bool{}
+	for _, f := range d.Fields {
+		listed[f] = true
+	}
+	var extra, gone []string
+	have := map[string]bool{}
+	for i := 0; i < st.NumFields(); i++ {
+		n := st.Field(i).Name()
+		have[n] = true
+		if !listed[n] {
+			extra = append(extra, n)
+		}
+	}
+	for _, f := range d.Fields {
+		if !have[f] {
+			gone = append(gone, f)
+		}
+	}
+	if len(extra) > 0 || len(gone) > 0 {
+		ob.Status = "failed"
+		ob.Model = fmt.Sprintf("%s: fields not on the reviewed list: %v; listed fields that no longer exist: %v", d.Type, extra, gone)
+	}
+	return ob
 }
